@@ -63,11 +63,12 @@ def _verify_is_fast_serializable(field):
             raise TypeError(
                 f"{obj.__name__} is not FastSerializable or does not implement 'serialize(self, value)'"
             )
-        if getattr(
-            obj, "serialize", None
-        ) is FastSerializable.serialize and not getattr(
-            obj, failed_to_create_fast_serializer, False
-        ):
+        # the class's OWN serializer counts (as in FastSerializable.__init__): a serializer inherited from a
+        # base class that was used earlier says nothing about whether this class's serializer can be generated
+        if (
+            "serialize" not in obj.__dict__
+            or obj.serialize is FastSerializable.serialize
+        ) and not getattr(obj, failed_to_create_fast_serializer, False):
             create_serializer(obj)
 
 
